@@ -45,11 +45,12 @@ def unit_bytes(v, gran):
     return [(v >> (8 * j)) & 0xFF for j in range(gran)]   # code file stores units little endian (host order)
 
 
-def render(beh):
-    """beh: list of steps from CodeWriter_Gen hist.  Returns (source, expected list of (seg, byteaddr, byte))"""
+def render(beh, cpu_stmt=True):
+    """beh: list of steps from CodeWriter_Gen hist.  Returns (source, expected list of (seg, byteaddr, byte)).
+    cpu_stmt=False: no CPU statement for the initial target (it is given with -cpu on the command line)."""
     lines = []
     exp = []
-    cur = None
+    cur = None if cpu_stmt else beh[0]["dial"]
     for k, st in enumerate(beh, 1):
         a = st["a"]
         d = DIALECTS[st["dial"]]
@@ -170,13 +171,15 @@ def main(tier):
     behs = behs[:150 if tier == "quick" else 2500]
     rep.cov["transitions"] += gen.generated
     jobs = []
-    for b in behs:
-        src, exp = render(b)
+    for bi, b in enumerate(behs):
+        src, exp = render(b, cpu_stmt=(bi % 2 == 0))
         jobs.append((b, src, len(exp)))
         del exp
     with Phase("replay %d generated programs" % len(jobs)):
-        results = aslrun.assemble_many(bld, [{"sources": {"a.asm": src}, "opts": ["-q"], "events": "file,emit",
-                                              "timeout": 60} for (_, src, _) in jobs])
+        results = aslrun.assemble_many(bld, [{"sources": {"a.asm": src},
+                                              "opts": ["-q"] + ([] if bi % 2 == 0 else ["-cpu", DIALECTS[b[0]["dial"]]["cpu"]]),
+                                              "events": "file,emit", "timeout": 60}
+                                             for bi, (b, src, _) in enumerate(jobs)])
     named = []
     for (b, src, nexp), res in zip(jobs, results):
         rep.evaluated()
